@@ -98,7 +98,7 @@ Qed.
 Lemma tr_wait_l : forall n scripts sched t th s',
   let s := rexec n scripts sched in
   nth_error (rthreads s) t = Some th -> rpcof th = RWaitingWg -> rstep s t = Some s' ->
-  rwg s = 0 /\ rc s = 0 /\ rlive s = 0 /\ rrunning s = 0 /\ rscheduling s = 0.
+  rwg s = 0 /\ rc s = 0 /\ rlive s = 0 /\ rrunning s = 0 /\ rscheduling s = 0 /\ rreleased s = 0.
 Proof.
   intros n scripts sched t th s' s Ht Epc H.
   destruct (rexec_inv n scripts sched) as [A B C D]. fold s in A, B, C, D.
